@@ -7,6 +7,8 @@ mod cbgen;
 mod frames;
 #[cfg(feature = "io")]
 mod aread;
+#[cfg(feature = "io")]
+mod awrite;
 
 use serde_json::{json, Value};
 use std::io::{BufRead, BufReader, BufWriter, Write};
@@ -30,6 +32,15 @@ fn cmd_cases(args: &[String]) -> i32 {
         n += 1;
         if obs["p"] == "unsupported" || obs["p"] == "na" { unsupported += 1; continue }
         distinct.insert(format!("{}:{}:{}", c["fam"], c["name"], c["in"]));
+        let mut c = c;
+        #[cfg(feature = "io")]
+        if c["exp"].get("sinkids").is_some() {
+            // the specification names sink bytes by identity <<value, index>>; translate to the bytes they denote
+            let vals = awrite::vals_from_json(&c["in"]["vals"]);
+            let b = awrite::bytes_of_ids(&vals, &c["exp"]["sinkids"]);
+            c["exp"].as_object_mut().unwrap().remove("sinkids");
+            c["exp"]["sink"] = abs::bytes(&b);
+        }
         if !abs::matches(&obs, &c["exp"]) {
             bad += 1;
             writeln!(out, "{}", json!({"case": c, "obs": obs})).unwrap();
